@@ -1,8 +1,162 @@
 import RbV.Basic.Codec
-/-! Driver for property C06 (line protocol → verdict). -/
-namespace RbV.Drv.C06
-open RbV.Codec
+import RbV.Ref.Smem
+/-! Driver for property C06: FMD-index.
 
-def verdict (_toks : List String) (_out : String) : String := "bad-op unimplemented"
+`c06 smems <s1>/<s2>/… k:<rate> l:<l> <pattern> => <sa> <smems(p,0,l)>/…/<smems(p,|p|-1,l)> <all_smems(p,l)>`
+`c06 ext <s1>/<s2>/… k:<rate> <chain>/… => <sa> <chain>/…`        (see `harness/src/c06.rs` for the grammar)
+
+The text is rebuilt here from the sequences with the spec's own `revcomp` (`fmdText`), so the run also ties the
+construction `s $ revcomp(s) $` to the specification.  Verdicts come from `checkSmems`, `checkAllSmems`, `checkBi`
+(theorems `RbV.Thm.C06.checkSmems_iff`, `checkAllSmems_iff`, `checkBi_iff`). -/
+namespace RbV.Drv.C06
+open RbV.Codec RbV
+
+def parseSmem (s : String) : Option SmemObs :=
+  match (s.splitOn ":").mapM parseNat with
+  | some [b, len, flo, fhi, rlo, rhi] => some ⟨b, len, flo, fhi, rlo, rhi⟩
+  | _ => none
+
+def parseBi (s : String) : Option BiObs :=
+  match (s.splitOn ":").mapM parseNat with
+  | some [flo, fhi, rlo, rhi] => some ⟨flo, fhi, rlo, rhi⟩
+  | _ => none
+
+def parseSmemList (s : String) : Option (List SmemObs) := parseList parseSmem s ';'
+
+def showPairs (l : List (Nat × Nat)) : String :=
+  if l.isEmpty then "-" else ";".intercalate (l.map fun (b, n) => toString b ++ ":" ++ toString n)
+
+def tagIf (b : Bool) (s : String) : String := if b then " " ++ s else ""
+
+def isDna (c : Nat) : Bool := [65, 67, 71, 84, 78, 97, 99, 103, 116, 110].contains c
+
+/-- first position `i` whose result is not accepted -/
+def firstBadI (T sa p : List Nat) (l : Nat) (all : List (Nat × Nat)) : List (List SmemObs) → Nat → Option String
+  | r :: rs, i =>
+    let exp := all.filter (fun x => decide (x.1 ≤ i) && decide (i < x.1 + x.2) && decide (l ≤ x.2))
+    if checkAgainst T sa p exp r then firstBadI T sa p l all rs (i + 1)
+    else some ("smems-i=" ++ toString i ++ (if sameSetG (keys r) exp then ":interval" else ":set expected:" ++ showPairs exp))
+  | [], _ => none
+
+def smemsVerdict (seqs : List (List Nat)) (k l : Nat) (p : List Nat) (out : String) : String :=
+  let T := fmdText seqs
+  match out.splitOn " " with
+  | [sas, per, alls] =>
+    match parseNatList sas, parseListNE parseSmemList per '/', parseSmemList alls with
+    | some sa, some perI, some all =>
+      if sa.length ≠ T.length then "reject suffix-array-length" else
+      if perI.length ≠ p.length then "reject arity" else
+      let ref := allSmemsRef T p
+      -- `smemsRef T p i l` is by definition this filter of `allSmemsRef T p`; computed once per line
+      match firstBadI T sa p l ref perI 0 with
+      | some r => "reject " ++ r
+      | none =>
+        if !checkAllSmems T sa p l all then
+          "reject all_smems" ++ (if sameSetG (keys all) (allSmemsMin T p l) then ":interval"
+            else ":set expected:" ++ showPairs (allSmemsMin T p l))
+        else
+          let refl := ref.filter (fun x => decide (l ≤ x.2))
+          let covered := (List.range p.length).all (fun i => ref.any (fun x => decide (x.1 ≤ i) && decide (i < x.1 + x.2)))
+          "ok" ++ tagIf (refl.length ≥ 2 || refl.any (fun x => x.2 ≥ 2)) "nt"
+            ++ tagIf (refl.length ≥ 2) "several" ++ tagIf refl.isEmpty "none" ++ tagIf (!covered) "gap"
+            ++ tagIf (ref.length > refl.length) "l-filters" ++ tagIf (all.length > refl.length) "dup-in-all"
+            ++ tagIf (refl.any (fun x => x.2 = p.length)) "whole"
+            ++ tagIf (p.any (fun c => c = 78 || c = 110)) "N" ++ tagIf (p.any (· ≥ 97)) "lower"
+            ++ tagIf (seqs.length ≥ 2) "multi" ++ tagIf (k > 64) "k>64" ++ tagIf (k ≤ 64) "k<=64"
+            ++ tagIf (perI.any (fun r => r.any (fun o => o.fhi - o.flo ≥ 2))) "multi-occ"
+    | _, _, _ => "bad-op output"
+  | _ => "bad-op output-arity"
+
+structure Chain where
+  emptyStart : Bool
+  w : List Nat
+  j : Nat
+  dirs : List Char
+
+def parseChain (s : String) : Option Chain :=
+  match s.splitOn ":" with
+  | [m, w, j, d] => do
+      let w ← parseHex w
+      let j ← parseNat j
+      let ds := if d = "-" then [] else d.toList
+      if m = "e" then
+        match ds with
+        | _ :: rest => pure ⟨true, w, j, rest⟩
+        | [] => none
+      else if m = "w" then pure ⟨false, w, j, ds⟩ else none
+  | _ => none
+
+/-- the strings a chain builds: w[j..j+1], then one per direction letter -/
+def chainStrings (w : List Nat) : Nat → Nat → List Char → List (List Nat)
+  | lo, hi, [] => [sub w lo (hi - lo)]
+  | lo, hi, c :: cs =>
+    sub w lo (hi - lo) :: (if c = 'f' then chainStrings w lo (hi + 1) cs else chainStrings w (lo - 1) hi cs)
+
+/-- check the reported steps against the strings; the chain must stop exactly after the first empty bi-interval -/
+def checkChain (T sa : List Nat) : List (List Nat) → List BiObs → Option String
+  | [], [] => none
+  | [], _ :: _ => some "too-many-steps"
+  | _ :: _, [] => some "too-few-steps"
+  | w :: ws, o :: os =>
+    if !checkBi T sa w o then some ("bi-interval-of:" ++ toHex w ++ ":occ=" ++ showNatList (occurrences w T)) else
+    if o.fhi = o.flo then (if os.isEmpty then none else some "steps-after-empty") else checkChain T sa ws os
+
+def firstBadChain (T sa : List Nat) : List Chain → List (List BiObs) → Nat → Option String
+  | c :: cs, r :: rs, n =>
+    match checkChain T sa (chainStrings c.w c.j (c.j + 1) c.dirs) r with
+    | some e => some ("chain#" ++ toString n ++ ":" ++ e)
+    | none => firstBadChain T sa cs rs (n + 1)
+  | _, _, _ => none
+
+def extVerdict (seqs : List (List Nat)) (k : Nat) (chains : List Chain) (out : String) : String :=
+  let T := fmdText seqs
+  match out.splitOn " " with
+  | [sas, rs] =>
+    match parseNatList sas, parseListNE (fun s => parseListNE parseBi s ';') rs '/' with
+    | some sa, some res =>
+      if sa.length ≠ T.length then "reject suffix-array-length" else
+      if res.length ≠ chains.length then "reject arity" else
+      match firstBadChain T sa chains res 0 with
+      | some r => "reject " ++ r
+      | none =>
+        let steps := res.foldl (fun a r => a + r.length) 0
+        "ok" ++ tagIf (res.any (fun r => r.length ≥ 3)) "nt"
+          ++ tagIf (chains.any (·.emptyStart)) "from-empty"
+          ++ tagIf (res.any (fun r => r.any (fun o => o.fhi = o.flo))) "reaches-empty"
+          ++ tagIf (res.any (fun r => r.any (fun o => o.fhi - o.flo ≥ 2))) "multi-occ"
+          ++ tagIf (chains.any (fun c => c.dirs.contains 'f' && c.dirs.contains 'b')) "both-dirs"
+          ++ tagIf (chains.any (fun c => c.w.any (· ≥ 97))) "lower"
+          ++ tagIf (chains.any (fun c => c.w.any (fun x => x = 78 || x = 110))) "N"
+          ++ tagIf (k > 64) "k>64" ++ tagIf (steps ≥ 20) "steps>=20"
+    | _, _ => "bad-op output"
+  | _ => "bad-op output-arity"
+
+def wellFormedChain (c : Chain) : Bool :=
+  !c.w.isEmpty && c.j < c.w.length && c.w.all isDna &&
+  (c.dirs.filter (· = 'f')).length = c.w.length - 1 - c.j && (c.dirs.filter (· = 'b')).length = c.j &&
+  c.dirs.all (fun d => d = 'f' || d = 'b')
+
+def verdict (toks : List String) (out : String) : String :=
+  let failed := out.startsWith "PANIC" || out.startsWith "HANG" || out.startsWith "CRASH"
+  match toks with
+  | ["smems", ss, k, l, ph] =>
+    match parseListNE parseHex ss '/', field k, field l, parseHex ph with
+    | some seqs, some ("k", kv), some ("l", lv), some p =>
+      match parseNat kv, parseNat lv with
+      | some kN, some lN =>
+        if lN = 0 || p.isEmpty || !p.all isDna || !seqs.all (·.all isDna) then "bad-op precondition" else
+        if failed then "reject " ++ out else smemsVerdict seqs kN lN p out
+      | _, _ => "bad-op numbers"
+    | _, _, _, _ => "bad-op parse"
+  | ["ext", ss, k, cs] =>
+    match parseListNE parseHex ss '/', field k, parseListNE parseChain cs '/' with
+    | some seqs, some ("k", kv), some chains =>
+      match parseNat kv with
+      | some kN =>
+        if !chains.all wellFormedChain || !seqs.all (·.all isDna) then "bad-op precondition" else
+        if failed then "reject " ++ out else extVerdict seqs kN chains out
+      | none => "bad-op numbers"
+    | _, _, _ => "bad-op parse"
+  | _ => "bad-op arity"
 
 end RbV.Drv.C06
